@@ -285,6 +285,16 @@ func (e Engine) Generate(prop, tier string, run int, seed uint64) *kernel.Scenar
 	case "C02":
 		sc.Steps = genC02(r, tier)
 	}
+	// a marathon: far more promotions than any history buffer or counter of the
+	// machine is likely to be sized for, before the drawn program goes on
+	if mr := kernel.NewRand(kernel.Derive(seed, "marathon")); mr.Bool(0.04) {
+		pre := []kernel.Step{kernel.St("init", "kind", "valid", "r", int64(mr.Uint64()>>2)), kernel.St("advance")}
+		for k := mr.Range(130, 180); k > 0; k-- {
+			pre = append(pre, kernel.St("update", "kind", "valid", "r", int64(mr.Uint64()>>2)), kernel.St("advance"))
+		}
+		sc.Steps = append(pre, sc.Steps...)
+		sc.Config["marathon"] = 1
+	}
 	// restarts: at a few points the machine is rebuilt from itself
 	rr := kernel.NewRand(kernel.Derive(seed, "restore"))
 	if rr.Bool(0.4) {
